@@ -53,7 +53,7 @@ Ltac rstep H :=
   match type of H with
   | rbind _ _ = Ok _ =>
       let x := fresh "x" in let E := fresh "E" in apply rbind_inv in H; destruct H as (x & E & H)
-  | (let '(_, _) := ?p in _) = Ok _ => destruct p as [? ?]
+  | (let '(_, _) := ?p in _) = Ok _ => is_var p; destruct p as [? ?]
   | Err _ = Ok _ => discriminate H
   end.
 Ltac rinv H := repeat rstep H.
@@ -751,3 +751,77 @@ Proof.
   destruct (R l Hl) as [X|[X|(f & Hf & ->)]]; [left; exact X|right; exact X|left].
   apply mem_strb_In in Hf. unfold dnames in Hf. apply in_map_iff in Hf as (d & E & Hd). rewrite <- E. apply M. exact Hd.
 Qed.
+
+(* ---------- building blocks for the memory operations of a back end ---------- *)
+Section LabsLemmas.
+Context {Code : Type}.
+Variables (cdefs crefs : Code -> list string).
+Notation defs := (defs cdefs).
+Notation refs := (refs crefs).
+Notation labs_ok := (labs_ok cdefs crefs).
+Notation lab k := (pr (GLab k)).
+
+Lemma labs_plain lc c : defs c = [] -> refs c = [] -> labs_ok lc c lc.
+Proof.
+  intros D R. split; [lia|]. exists []. rewrite D, R. split; [reflexivity|]. split; [constructor|]. split; [intros k []|apply incl_refl].
+Qed.
+Lemma labs_weaken a b a' b' c : (a' <= a)%N -> (b <= b')%N -> labs_ok a c b -> labs_ok a' c b'.
+Proof.
+  intros H1 H2 (L & ks & E & N & K & I). split; [lia|]. exists ks. repeat split; try assumption; apply K in H; lia.
+Qed.
+Lemma labs_perm a b c ks :
+  (a <= b)%N -> Permutation (defs c) (map (fun k => lab k) ks) -> NoDup ks -> (forall k, In k ks -> (a < k <= b)%N) ->
+  incl (refs c) (defs c) -> labs_ok a c b.
+Proof.
+  intros L P N K I. split; [exact L|]. apply Permutation_map_inv in P as (ks' & E & P).
+  exists ks'. repeat split; try assumption; [apply (Permutation_NoDup P N)| |]; apply K, (Permutation_in _ (Permutation_sym P)); exact H.
+Qed.
+Lemma labs_app a b c c1 c2 : labs_ok a c1 b -> labs_ok b c2 c -> labs_ok a (c1 ++ c2) c.
+Proof.
+  intros (L1 & k1 & E1 & N1 & K1 & I1) (L2 & k2 & E2 & N2 & K2 & I2). split; [lia|]. exists (k1 ++ k2). split; [|split; [|split]].
+  - rewrite (defs_app cdefs), E1, E2, map_app. reflexivity.
+  - apply NoDup_app_intro; [exact N1|exact N2|]. intros k H1 H2. apply K1 in H1. apply K2 in H2. lia.
+  - intros k H. apply in_app_or in H as [H|H]; [apply K1 in H|apply K2 in H]; lia.
+  - rewrite (refs_app crefs), (defs_app cdefs). apply incl_app; [apply incl_appl|apply incl_appr]; assumption.
+Qed.
+(* skip_if_zero: one new label after the body *)
+Lemma labs_skip a b body code :
+  labs_ok a body b -> defs code = defs body ++ [lab (b + 1)] -> incl (refs code) (lab (b + 1) :: refs body) ->
+  labs_ok a code (b + 1).
+Proof.
+  intros (L & ks & E & N & K & I) D R. split; [lia|]. exists (ks ++ [(b + 1)%N]). split; [|split; [|split]].
+  - rewrite D, E, map_app. reflexivity.
+  - apply NoDup_app_intro; [exact N|constructor; [intros []|constructor]|]. intros k H [<-|[]]. apply K in H. lia.
+  - intros k H. apply in_app_or in H as [H|[<-|[]]]; [apply K in H|]; lia.
+  - intros l Hl. apply R in Hl. rewrite D. apply in_or_app. destruct Hl as [<-|Hl]; [right; left; reflexivity|left; apply I; exact Hl].
+Qed.
+(* if_zero_then_else: the branches were generated before the two labels are drawn *)
+Lemma labs_ite a b c th el code :
+  labs_ok a th b -> labs_ok b el c ->
+  defs code = defs el ++ lab (c + 1) :: defs th ++ [lab (c + 2)] ->
+  incl (refs code) (lab (c + 1) :: refs el ++ lab (c + 2) :: refs th) ->
+  labs_ok a code (c + 2).
+Proof.
+  intros (L1 & k1 & E1 & N1 & K1 & I1) (L2 & k2 & E2 & N2 & K2 & I2) D R.
+  apply (labs_perm a (c + 2) code (k2 ++ (c + 1)%N :: k1 ++ [(c + 2)%N])); [lia| | | |].
+  - rewrite D, E1, E2, map_app. cbn [map]. rewrite map_app. reflexivity.
+  - apply NoDup_app_intro; [exact N2| |].
+    + constructor.
+      * intros H. apply in_app_or in H as [H|[H|[]]]; [apply K1 in H|]; lia.
+      * apply NoDup_app_intro; [exact N1|constructor; [intros []|constructor]|]. intros k H [<-|[]]. apply K1 in H. lia.
+    + intros k H1 [<-|H2]; [apply K2 in H1; lia|]. apply K2 in H1. apply in_app_or in H2 as [H2|[<-|[]]]; [apply K1 in H2|]; lia.
+  - intros k H. apply in_app_or in H as [H|[<-|H]]; [apply K2 in H; lia|lia|].
+    apply in_app_or in H as [H|[<-|[]]]; [apply K1 in H|]; lia.
+  - intros l Hl. apply R in Hl. rewrite D. destruct Hl as [<-|Hl].
+    + apply in_or_app. right. left. reflexivity.
+    + apply in_app_or in Hl as [Hl|[<-|Hl]].
+      * apply in_or_app. left. apply I2. exact Hl.
+      * apply in_or_app. right. right. apply in_or_app. right. left. reflexivity.
+      * apply in_or_app. right. right. apply in_or_app. left. apply I1. exact Hl.
+Qed.
+Lemma labs_cons_plain a b i c : cdefs i = [] -> crefs i = [] -> labs_ok a c b -> labs_ok a (i :: c) b.
+Proof.
+  intros D R H. change (i :: c) with ([i] ++ c). apply (labs_app a a b); [|exact H].
+  apply labs_plain; unfold LabelGen.defs, LabelGen.refs; cbn [flat_map]; rewrite ?D, ?R; reflexivity.
+Qed.
+End LabsLemmas.
